@@ -10,6 +10,11 @@ def insertAt (l : List α) (i : Nat) (x : α) : List α := l.take i ++ x :: l.dr
 def setAt (l : List α) (i : Nat) (x : α) : List α := l.take i ++ x :: l.drop (i+1)
 def removeAt (l : List α) (i : Nat) : List α := l.take i ++ l.drop (i+1)
 
+theorem lt_of_getElem?_eq_some {l : List α} {i : Nat} {x : α} (h : l[i]? = some x) : i < l.length := by
+  rcases Nat.lt_or_ge i l.length with h' | h'
+  · exact h'
+  · simp [List.getElem?_eq_none h'] at h
+
 theorem length_insertAt (l : List α) (i : Nat) (x : α) (h : i ≤ l.length) :
     (insertAt l i x).length = l.length + 1 := by
   simp [insertAt]; omega
